@@ -50,10 +50,15 @@ impl Parsed {
         for (i, file) in file_tree.files.iter().enumerate() {
             let ident: Identifier = (&file.module_name).into();
             let ident = spans.add(
+                // the first character of the file (nothing, if it is empty)
                 Span {
                     file: i,
                     start: 0,
-                    end: 1,
+                    end: file
+                        .contents
+                        .chars()
+                        .next()
+                        .map_or(0, char::len_utf8),
                 },
                 ident,
             );
